@@ -62,7 +62,10 @@ class C11(Prop):
     }
 
     def extract_tables(self, repo):
-        return S.extract_tables(repo)
+        from harness.pyset2lean import translate
+        out = dict(S.extract_tables(repo))
+        out['TTV/Generated/C11.lean'] = translate(repo)['TTV/Generated/C11.lean']   # StreamTagger's set arithmetic, translated from the source
+        return out
 
     # ----- implementation side
     def build(self, t, leaves, ctx):
